@@ -134,10 +134,14 @@ func (c *Ctl) Gate(name string) {
 	}
 	pn := c.whoami()
 	c.mu.Lock()
+	if pn == "drv" {
+		c.mu.Unlock()
+		return
+	}
 	k := pn + "/" + name
 	c.occ[k]++
 	c.emitLocked("gate", Ev{"p": pn, "g": name, "k": c.occ[k]})
-	if c.free || pn == "drv" {
+	if c.free {
 		c.mu.Unlock()
 		return
 	}
@@ -299,9 +303,9 @@ func (g *G) stable() bool {
 	if strings.HasPrefix(g.State, "GC") {
 		return false
 	}
-	if g.State == "select" || g.State == "chan receive" {
-		// timed waits of the real code are not stable states
-		if g.has("ValidateTxAndPayClaimInvoiceAction).Execute") || g.has("timer.TimedCallback") {
+	if (g.State == "select" || g.State == "chan receive") && len(g.Frames) > 0 {
+		// timed waits of the real code (its own select on a ticker) are not stable states
+		if strings.Contains(g.Frames[0], "ValidateTxAndPayClaimInvoiceAction).Execute") || strings.Contains(g.Frames[0], "timer.TimedCallback") {
 			return false
 		}
 	}
